@@ -11,8 +11,8 @@ QUICK_S = 40
 THOROUGH_S = 420
 CHUNK = 40
 HANG_IS_VIOLATION = True
-REAL_COMPONENTS = ['pysmi.compiler.MibCompiler.compile', 'parser', 'SymtableCodeGen', 'JsonCodeGen']
-STUB_COMPONENTS = ['sources (each holds a subset of the modules, healthy or defective copies, reader errors)', 'searchers', 'borrower readers', 'writer']
+REAL_COMPONENTS = ['pysmi.compiler.MibCompiler.compile', 'parser', 'SymtableCodeGen', 'JsonCodeGen', 'real-filesystem worlds (about 15 %): FileReader (plain, with .index), ZipReader, HttpReader (behind a simulated web server), AnyFileSearcher, StubSearcher, AnyFileBorrower, FileWriter - tapped in place', 'CallbackReader sources sharing one look-up function and real StubSearcher objects in a share of the simulated worlds']
+STUB_COMPONENTS = ['sources (each holds a subset of the modules, healthy or defective copies, reader errors)', 'searchers', 'borrower readers', 'writer', 'web server + network of HTTP sources (simulated at urlopen: refuse / 404 / 500 / cut body / no Last-Modified)', 'errno and short-write outcomes of os.* calls in real-filesystem worlds (seeded rate)']
 RULE = ('seeded import graphs (chains, diamonds, cycles, self imports, several modules per file, files holding only other modules) over 1-6 modules, '
         '1-3 sources each holding a subset; distinct = distinct (status multiset, options, faults, component counts, graph shape class); '
         'non-trivial = >=2 modules or a fault fired')
